@@ -1,13 +1,106 @@
 import VrpProofs.C11.WF
 import VrpModel.Generated.C11Schema
 set_option linter.unusedSimpArgs false
+set_option linter.unusedVariables false
 
+/-!
+# C11 — problem / matrix / solution documents survive round trips
+
+Part 1 (this section): `ser(parse(ser d)) = ser d` for every document of the generated schema
+`C11.Generated.defs` (translator T1 regenerates it from the Rust serde definitions).
+-/
 namespace C11
 
+/-! ## obligations on the generated schema (re-checked whenever the Rust definitions change) -/
+
+/-- translator T1 understood every construct of the anchored definitions -/
 theorem extraction_ok : Generated.extractionOk = true := by decide
 
-theorem defs_cover : coverB Generated.defs Generated.roots = true := by decide +kernel
+/-- every type reachable from `Problem`, `Matrix`, `Solution` is defined -/
+theorem defs_cover : coverB Generated.defs Generated.roots = true := by decide
 
-theorem defs_wf : envWFB Generated.defs 8 = true := by decide +kernel
+/-- the schema passes the decidable side condition (field names vs aliases, skipped fields are
+    `Option` of a never-null type without default, tag not a field name, variant names distinct,
+    later `untagged` variants safe against earlier ones) -/
+theorem defs_wf : envWFB Generated.defs 8 = true := by decide
+
+/-! ## the property -/
+
+/-- **serialise → parse → serialise is the identity on the text**: whenever a value `v` of one of the
+    document types serialises to the JSON tree `j`, the parser accepts `j` and what it returns
+    serialises to `j` again — for every value, nesting depth and root type. -/
+theorem serde_roundtrip (root : String) (n : Nat) (v : Val) (j : Json)
+    (he : encode (envOf Generated.defs) n (.ref root) v = some j) :
+    ∃ w, decode (envOf Generated.defs) n (.ref root) j = some w ∧
+         encode (envOf Generated.defs) n (.ref root) w = some j :=
+  roundtrip Generated.defs 8 defs_wf root n v j he
+
+/-- the same on *foreign* input: whatever JSON `j` the parser accepts (extra fields, aliases, nulls,
+    integer literals in float positions …), its re-serialisation `j'` is a fixed point of
+    parse-then-serialise. -/
+theorem serde_reserialisation_stable (root : String) (n : Nat) (j j' : Json) (w : Val)
+    (_hd : decode (envOf Generated.defs) n (.ref root) j = some w)
+    (he : encode (envOf Generated.defs) n (.ref root) w = some j') :
+    ∃ w', decode (envOf Generated.defs) n (.ref root) j' = some w' ∧
+          encode (envOf Generated.defs) n (.ref root) w' = some j' :=
+  serde_roundtrip root n w j' he
+
+/-! ### non-vacuity: concrete documents serialise -/
+
+/-- a matrix with an absent optional field -/
+example : encode (envOf Generated.defs) 20 (.ref "Matrix")
+    (.record [.just (.str "car"), .nul, .list [.int 0, .int 5], .list [.int 0, .int 7], .nul])
+  = some (.obj [("profile", .str "car"), ("timestamp", .null), ("travelTimes", .arr [.int 0, .int 5]),
+                ("distances", .arr [.int 0, .int 7])]) := by rfl
+
+/-- a tour with a point stop (untagged variant 0), an index location (untagged variant 1) and an
+    activity whose optional fields are skipped -/
+example : (encode (envOf Generated.defs) 30 (.ref "Tour")
+    (.record [.str "v1", .str "t", .int 0,
+      .list [.variant 0 (.record [.variant 1 (.record [.int 3]), .record [.str "a", .str "b"], .int 0,
+               .list [.int 1], .nul, .list [.record [.str "job1", .str "delivery", .nul, .nul, .just (.str "tag"), .nul]]])],
+      .record [.flt 0, .int 0, .int 0, .record [.int 0, .int 0, .int 0, .int 0, .int 0, .int 0]]])).isSome = true := by
+  decide
+
+/-- a nested multi-objective (tagged enum inside tagged enum) -/
+example : (encode (envOf Generated.defs) 30 (.ref "Objective")
+    (.variant 16 (.record [.variant 1 (.record [.list [.flt 0]]),
+        .list [.variant 0 (.record []), .variant 5 (.record [.nul])]]))).isSome = true := by decide
+
+/-! ### the schema check is not vacuous: it refuses the dangerous rewrites and accepts harmless ones -/
+
+namespace Demo
+def flt : Ty := .prim .flt
+def str : Ty := .prim .str
+def point : Ty := .struct [(fh "location", .ref "Location"), (fh "time", str), (fh "distance", .prim .int),
+      (fs "parking", .opt str), (fh "load", .vec (.prim .i32)), (fh "activities", .vec str)]
+def transit : Ty := .struct [(fh "time", str), (fh "load", .vec (.prim .i32)), (fh "activities", .vec str)]
+def base : List (String × Ty) := [
+  ("Location", .untagged [
+      .struct [(fh "lat", flt), (fh "lng", flt)],
+      .struct [(fh "index", .prim .nat)],
+      .struct [(fh "type", .units ["unknown"])]]),
+  ("PointStop", point), ("TransitStop", transit)]
+def optBreak : Ty := .struct [(fh "time", .untagged [.vec str, .vec flt]), (fh "places", .vec flt), (fh "policy", .opt str)]
+def reqBreak : Ty := .struct [(fh "time", str), (fh "duration", flt)]
+
+/-- the order of the repository: point stop first -/
+example : envWFB (("Stop", .untagged [.ref "PointStop", .ref "TransitStop"]) :: base) 8 = true := by decide
+/-- transit stop first: a point stop would parse as a transit stop and lose its location — refused -/
+example : envWFB (("Stop", .untagged [.ref "TransitStop", .ref "PointStop"]) :: base) 8 = false := by decide
+/-- reordering the break variants is harmless (each has a required field the other never writes) — accepted -/
+example : envWFB [("VehicleBreak", .untagged [optBreak, reqBreak])] 8 = true := by decide
+example : envWFB [("VehicleBreak", .untagged [reqBreak, optBreak])] 8 = true := by decide
+/-- float list before integer list: `[1]` parses as floats and comes back as `[1.0]` — refused -/
+example : envWFB [("X", .untagged [.vec flt, .vec (.prim .int)])] 8 = false := by decide
+/-- a field whose serialise name is another field's alias — refused -/
+example : envWFB [("X", .struct [(fx "a" ["b"] false none, str), (fh "b", str)])] 8 = false := by decide
+/-- `skip_serializing_if` on a field with a default: the skipped value would come back as the default — refused -/
+example : envWFB [("X", .struct [(fx "a" [] true (some (.int 1)), .opt (.prim .int))])] 8 = false := by decide
+/-- skipped `Option<Option<T>>`: `Some(None)` is written as `null` and read as `None` — refused -/
+example : envWFB [("X", .struct [(fs "a", .opt (.opt str))])] 8 = false := by decide
+/-- the tag of an internally tagged enum used as a field name — refused -/
+example : envWFB [("X", .tagged "type" [("a", [(fh "type", str)])])] 8 = false := by decide
+end Demo
 
 end C11
